@@ -26,9 +26,8 @@ TStep ==
   /\ \/ Ev.ev = "p" /\ WriteP(Ev.v)
      \/ Ev.ev = "min" /\ SetMin(Ev.v)
      \/ Ev.ev = "max" /\ SetMax(Ev.v)
-     \/ Ev.ev = "limits" /\ SetLimits(Ev.a, Ev.b)
+     \/ Ev.ev = "limits" /\ SetLimits(Ev.a, Ev.b, Ev.via # "assign")
   /\ Seen(Ev)
-  /\ TupleNeverInverted'
 
 TSpec == TInit /\ [][TStep]_<<lvars, t, l>>
 Track == TLCSet(t, IF l > TLCGet(t) THEN l ELSE TLCGet(t))
